@@ -248,7 +248,7 @@ theorem xor_gadget (σ : V → Rat) (x n o : V)
       · exact h
     refine ⟨hx1, ?_⟩
     rw [hx1] at h1 h2
-    rcases hn with hn | hn <;> rcases ho with ho | ho <;> rw [hn, ho] at h1 h2 ⊢ <;> first | linarith | norm_num
+    rcases hn with hn | hn <;> rcases ho with ho | ho <;> rw [hn, ho] at h1 h2 ⊢ <;> linarith
   · rintro ⟨hx1, hs⟩
     rw [hx1]
     rcases hn with hn | hn <;> rcases ho with ho | ho <;> rw [hn, ho] at hs ⊢ <;> first | (exfalso; linarith) | norm_num
